@@ -80,6 +80,29 @@ type scriptConn struct {
 	cancel func()
 	serial bool
 	fault  string
+	// a network connection blocks in Read / Write until data arrives or the deadline the CALLER has set expires; with no
+	// deadline it blocks until the exchange is given up (release).  The serial port has its own timeout (no deadlines).
+	rdl, wdl time.Time
+	release  chan struct{}
+}
+
+// waitDeadline blocks as a network connection without data does: until the deadline, or for good when none is set
+func (c *scriptConn) waitDeadline(d time.Time) {
+	if c.serial {
+		return
+	}
+	if d.IsZero() {
+		if c.release != nil {
+			<-c.release
+		}
+		return
+	}
+	if w := time.Until(d); w > 0 {
+		select {
+		case <-time.After(w):
+		case <-c.release:
+		}
+	}
 }
 
 func (c *scriptConn) Read(p []byte) (int, error) {
@@ -118,6 +141,7 @@ func (c *scriptConn) Read(p []byte) (int, error) {
 			var err error
 			switch st.E {
 			case "deadline":
+				c.waitDeadline(c.rdl)
 				err = os.ErrDeadlineExceeded
 			case "eof":
 				err = io.EOF
@@ -159,7 +183,12 @@ func (c *scriptConn) Read(p []byte) (int, error) {
 		}
 		return 0, nil
 	}
-	time.Sleep(500 * time.Microsecond)
+	if c.rdl.IsZero() {
+		c.waitDeadline(c.rdl) // no read deadline was set: a quiet network connection never returns
+	} else {
+		time.Sleep(500 * time.Microsecond)
+		c.waitDeadline(c.rdl)
+	}
 	if l.lastLogged {
 		l.add(Ev{"ev": "conn.read", "bytes": []int{}, "n": 0, "err": "deadline"})
 	}
@@ -171,15 +200,21 @@ func (c *scriptConn) Write(b []byte) (int, error) {
 		c.log.add(Ev{"ev": "conn.write", "bytes": ints(b), "err": 1})
 		return 0, errInjected
 	}
+	if c.fault == "writestall" && !c.serial {
+		// the peer does not take the bytes: the write returns when the write deadline expires
+		c.log.add(Ev{"ev": "conn.write", "bytes": ints(b), "err": 1})
+		c.waitDeadline(c.wdl)
+		return 0, os.ErrDeadlineExceeded
+	}
 	c.log.add(Ev{"ev": "conn.write", "bytes": ints(b), "err": 0})
 	return len(b), nil
 }
 func (c *scriptConn) Close() error                       { return nil }
 func (c *scriptConn) LocalAddr() net.Addr                { return &net.TCPAddr{} }
 func (c *scriptConn) RemoteAddr() net.Addr               { return &net.TCPAddr{} }
-func (c *scriptConn) SetDeadline(t time.Time) error      { return nil }
-func (c *scriptConn) SetReadDeadline(t time.Time) error  { return nil }
-func (c *scriptConn) SetWriteDeadline(t time.Time) error { return nil }
+func (c *scriptConn) SetDeadline(t time.Time) error      { c.rdl, c.wdl = t, t; return nil }
+func (c *scriptConn) SetReadDeadline(t time.Time) error  { c.rdl = t; return nil }
+func (c *scriptConn) SetWriteDeadline(t time.Time) error { c.wdl = t; return nil }
 
 // hookRec writes to the log of the exchange currently loaded into the transport
 type hookRec struct{ conn *scriptConn }
@@ -317,6 +352,8 @@ func (ec *exchClient) run(c *exchCase, timeoutMs int) []Ev {
 	// (re)load the transport for this exchange
 	conn := ec.conn
 	conn.log, conn.reply, conn.off, conn.script, conn.pos, conn.cancel, conn.fault = lg, bytesOf(c.Reply), 0, script, 0, cancel, c.Fault
+	conn.rdl, conn.wdl, conn.release = time.Time{}, time.Time{}, make(chan struct{})
+	defer close(conn.release)
 	cl := ec.cl
 	if c.Fault == "nilreq" {
 		req = nil
